@@ -73,6 +73,7 @@ def host_main(h, spec):
             note("payload-delayed")
         for _ in range(n):
             real_send_data(address, data, syn)
+        note("payload-sent")
     ds_mod.send_data = send_data
 
     real_cb = comms.callback
@@ -91,6 +92,56 @@ def host_main(h, spec):
         real_cb(address, msg)
     comms.callback = cb
     server = ds_mod.DataServer(h["maddress"], h["daddress"], h["id"], h["shm_port"], cfg.logging_config)
+    # ---- event trace at the data server's own boundary (witness material; also tells a lost notice from a missing one) ----
+    from cascade.executor.msg import DatasetPublished as _DP, DatasetPurge as _Purge, DatasetTransmitPayload as _Payload
+    evlog = os.path.join(spec["tmp"], f"events-{h['id']}.log")
+    ev_t0 = time.time()
+
+    def ev(s):
+        with open(evlog, "a") as f:
+            f.write(f"{time.time() - ev_t0:.4f} {s}\n")
+    real_store = server.store_payload
+
+    def store_payload(payload):
+        ev(f"store-begin {payload.header.ds.task} idx={payload.header.confirm_idx}")
+        try:
+            return real_store(payload)
+        finally:
+            ev(f"store-end {payload.header.ds.task} idx={payload.header.confirm_idx}")
+    server.store_payload = store_payload
+    real_purge = shm_client.purge
+
+    def purge(key, *a, **k):
+        ev(f"shm-purge-begin {key}")
+        try:
+            return real_purge(key, *a, **k)
+        finally:
+            ev(f"shm-purge-end {key}")
+    ds_mod.shm_client.purge = purge
+    real_recv2 = server.dlistener.recv_messages
+
+    def recv2(timeout_ms=1000):
+        ms = real_recv2(timeout_ms)
+        for m in ms:
+            if isinstance(m, _Payload):
+                ev(f"recv-payload {m.header.ds.task} idx={m.header.confirm_idx}")
+            elif isinstance(m, _Purge):
+                ev(f"recv-purge {m.ds.task}")
+            else:
+                ev(f"recv-{type(m).__name__} {getattr(m, 'idx', '')}")
+        return ms
+    server.dlistener.recv_messages = recv2
+    cb_prev = comms.callback
+
+    def cb2(address, msg):
+        if isinstance(msg, _DP):
+            ev(f"announce-called {msg.ds.task} idx={msg.transmit_idx}")
+        return cb_prev(address, msg)
+    comms.callback = cb2
+    ds_mod.callback = cb2
+    import faulthandler
+    import signal
+    faulthandler.register(signal.SIGUSR1, file=open(os.path.join(spec["tmp"], f"stacks-{h['id']}.txt"), "w"), all_threads=True)   # witness material on demand
     note("ready")
     try:
         server.recv_loop()
@@ -218,8 +269,38 @@ def run_scenario(spec):
             send(c["host"], DatasetPurge(ds=ds))
             purged_at.add((c["ds"], c["host"]))
         pump(c.get("wait", 0.0))
-    # ---- drive to quiescence: every expected announcement / payload seen, or the budget is used up -----------
-    budget = time.time() + spec.get("settle_s", 6.0)
+    # ---- drive to logical quiescence --------------------------------------------------------------------------
+    # done = every expected announcement / fetched payload has been seen AND every purge the harness sent has been executed
+    # by its data server (its event trace shows the shm purge returning). No verdict is taken from the wall clock: while the
+    # data servers are still doing something (their fault / event logs grow: retransmissions every 4 virtual = 0.1 real
+    # seconds) the harness keeps waiting; only when everything has been silent for QUIET_S (>= 15 confirmation graces) may a
+    # transfer that is still missing be called lost. If the servers are still busy at the cap, the scenario is inconclusive.
+    QUIET_S, CAP_S = 1.5, spec.get("settle_cap_s", 45.0)
+    purges_sent: dict = {}
+    for c in spec["commands"]:
+        if c["op"] == "purge":
+            purges_sent[c["host"]] = purges_sent.get(c["host"], 0) + 1
+
+    def log_sizes():
+        tot = 0
+        for h in hosts:
+            for nm in (f"faults-{h['id']}.log", f"events-{h['id']}.log"):
+                try:
+                    tot += os.path.getsize(os.path.join(spec["tmp"], nm))
+                except OSError:
+                    pass
+        return tot
+
+    def purges_done():
+        for hid, n in purges_sent.items():
+            try:
+                done = sum(1 for ln in open(os.path.join(spec["tmp"], f"events-{hid}.log")) if " shm-purge-end " in ln)
+            except OSError:
+                done = 0
+            if done < n:
+                return False
+        return True
+
     def pending():
         n = 0
         for (i, t, src, dst) in transfers:
@@ -231,8 +312,25 @@ def run_scenario(spec):
             if i not in fetched:
                 n += 1
         return n
-    while time.time() < budget and pending():
+    t_start = time.time()
+    last_size, last_change = log_sizes(), time.time()
+    still_active = False
+    while True:
         pump(0.05)
+        sz = log_sizes()
+        if sz != last_size:
+            last_size, last_change = sz, time.time()
+        if not pending() and purges_done():
+            break
+        if time.time() - last_change >= QUIET_S:
+            break          # silent for many confirmation graces: whatever is still missing will not come
+        if time.time() - t_start > CAP_S:
+            still_active = True
+            break
+    if still_active:
+        res["outcome"] = "inconclusive"
+        res["error"] = f"data servers still busy after {CAP_S:.0f} s (machine overloaded?): no verdict for this scenario"
+        return res
     pump(0.5)   # let late duplicates show up
     # ---- oracle ---------------------------------------------------------------------------------------------
     V = res["violations"]
@@ -261,8 +359,19 @@ def run_scenario(spec):
         if got[0] != data or got[1] != df:
             V.append(["stored-bytes-or-decoder-differ", f"{t} at {dst}: {len(got[0])} bytes, deser_fun {got[1]!r} vs source {len(data)} bytes, {df!r}"])
         want = 0 if (t, dst) in held_before else 1
-        if len(anns) != want:
-            V.append(["announced-more-than-once" if len(anns) > want else "arrival-never-announced", f"{t} at {dst}: {len(anns)} announcements {anns}, expected {want} (held before: {(t, dst) in held_before})"])
+        # the announcement is observed at the data server's own boundary (its call of callback(maddress, DatasetPublished)) and
+        # cross-checked with what reached the harness: the notice travels over a one-shot socket with a 1 s linger, which a
+        # starved machine can lose -- that is the observation channel failing, not the data server forgetting to announce
+        try:
+            called = sum(1 for ln in open(os.path.join(spec["tmp"], f"events-{dst}.log")) if f" announce-called {t} " in ln)
+        except OSError:
+            called = len(anns)
+        if max(called, len(anns)) > want:
+            V.append(["announced-more-than-once", f"{t} at {dst}: announced {called}x by the data server, {len(anns)} notices received {anns}, expected {want} (held before: {(t, dst) in held_before})"])
+        elif called < want:
+            V.append(["arrival-never-announced", f"{t} at {dst}: stored, but the data server never announced it (held before: {(t, dst) in held_before})"])
+        elif len(anns) < called:
+            res["notes"].append("announcement-made-but-lost-on-its-way-to-the-harness")
     for (i, t, src) in fetches:
         ds, data, df = datasets[t]
         got = fetched.get(i, [])
@@ -292,6 +401,29 @@ def run_scenario(spec):
         except OSError:
             pass
     res["data_server_exits"] = exits
+    if V:
+        # witness material: thread stacks of every data server process and whether its shm server is still there
+        import signal
+        import psutil
+        res["stacks"], res["children_alive"] = {}, {}
+        for hid, p in procs.items():
+            try:
+                res["children_alive"][hid] = [(c.pid, c.status()) for c in psutil.Process(p.pid).children()]
+                os.kill(p.pid, signal.SIGUSR1)
+            except Exception:  # noqa: BLE001
+                pass
+        time.sleep(0.4)
+        for h in hosts:
+            try:
+                res["stacks"][h["id"]] = open(os.path.join(spec["tmp"], f"stacks-{h['id']}.txt")).read()[-6000:]
+            except OSError:
+                pass
+        res["events"] = {}
+        for h in hosts:
+            try:
+                res["events"][h["id"]] = [ln.strip() for ln in open(os.path.join(spec["tmp"], f"events-{h['id']}.log")).readlines()[-80:]]
+            except OSError:
+                pass
     res["stats"] = stats
     res["outcome"] = "ok"
     return res
